@@ -1,6 +1,9 @@
 package main
 
 import (
+	"strings"
+	"sort"
+	"strconv"
 	"go/ast"
 	"go/token"
 	"go/types"
@@ -15,6 +18,7 @@ func checkC18(c *Check) {
 	c.notCover = "MIME well-formedness of the generated report, handling of non-ASCII diagnostic text (value-level, library)."
 	c18Alias(c)
 	c18Format(c)
+	c18SingleLine(c)
 	c18Bounce(c)
 	r := c.need("R1", queueRel, "Queue", "emitDSN")
 	c.Rule("R1", "FinalRecipient is the original-recipient-map entry of the failed recipient, or the recipient itself on a miss", 1)
@@ -918,4 +922,122 @@ func c18Bounce(c *Check) {
 		c.Hold("R10", "emitDSN:cleanup-aborts-iff-failed", d.Pos(), m == "", m)
 		return false
 	})
+}
+
+// R11: a failure report is only produced if it can be serialised. The Diagnostic-Code field carries the text of the
+// last error – text a remote server supplied. A header field value may contain neither CR nor LF (textproto.WriteHeader
+// refuses it, GenerateDSN fails, emitDSN logs and the original is removed: no report at all for any of the failed
+// recipients). The text therefore passes a replacement that covers the two characters individually: a replacer that
+// knows "\r\n" and "\n" lets a lone CR through – `550 5.1.1 foo\rbar` from a remote MX suppresses the bounce.
+func c18SingleLine(c *Check) {
+	c.Rule("R11", "dsn.RecipientInfo.WriteTo: every text that goes into Diagnostic-Code passes a replacement whose patterns include the single characters CR and LF", 2)
+	r := c.need("R11", "internal/dsn", "RecipientInfo", "WriteTo")
+	if r == nil {
+		return
+	}
+	p := c.P
+	info := r.Info
+	// replacement patterns applied by an expression (ReplaceAll nesting, or a strings.Replacer resolved to its NewReplacer call)
+	var patterns func(e ast.Expr, depth int) map[string]bool
+	patterns = func(e ast.Expr, depth int) map[string]bool {
+		out := map[string]bool{}
+		if depth > 4 {
+			return out
+		}
+		ast.Inspect(e, func(x ast.Node) bool {
+			call, ok := x.(*ast.CallExpr)
+			if !ok {
+				return true
+			}
+			if isCall(info, call, "strings.ReplaceAll", "strings.Replace") && len(call.Args) >= 3 {
+				if sv, ok := constString(info, call.Args[1]); ok {
+					out[sv] = true
+				}
+			}
+			if isCall(info, call, "strings.Replacer.Replace") {
+				// the replacer: a package-level or local variable initialised with NewReplacer
+				if o := objOf(info, callRecv(call)); o != nil {
+					for _, f := range r.FI.Pkg.Syntax {
+						ast.Inspect(f, func(y ast.Node) bool {
+							var vals []ast.Expr
+							switch d := y.(type) {
+							case *ast.ValueSpec:
+								for i, nm := range d.Names {
+									if info.Defs[nm] == o && i < len(d.Values) {
+										vals = append(vals, d.Values[i])
+									}
+								}
+							case *ast.AssignStmt:
+								for i, l := range d.Lhs {
+									if objOf(info, l) == o && i < len(d.Rhs) {
+										vals = append(vals, d.Rhs[i])
+									}
+								}
+							}
+							for _, v := range vals {
+								if nc, ok := ast.Unparen(v).(*ast.CallExpr); ok && isCall(info, nc, "strings.NewReplacer") {
+									for i := 0; i+1 < len(nc.Args); i += 2 {
+										if sv, ok := constString(info, nc.Args[i]); ok {
+											out[sv] = true
+										}
+									}
+								}
+							}
+							return true
+						})
+					}
+				}
+			}
+			return true
+		})
+		return out
+	}
+	n := 0
+	ast.Inspect(r.FI.Decl.Body, func(x ast.Node) bool {
+		call, ok := x.(*ast.CallExpr)
+		if !ok || methodName(call) != "Add" || len(call.Args) != 2 {
+			return true
+		}
+		if k, ok := constString(info, call.Args[0]); !ok || k != "Diagnostic-Code" {
+			return true
+		}
+		n++
+		val := call.Args[1]
+		pats := patterns(val, 0)
+		// locals used in the value: their definitions count too
+		ast.Inspect(val, func(y ast.Node) bool {
+			if id, ok := y.(*ast.Ident); ok {
+				if v, isVar := info.Uses[id].(*types.Var); isVar && !v.IsField() {
+					ast.Inspect(r.FI.Decl.Body, func(z ast.Node) bool {
+						if as, ok := z.(*ast.AssignStmt); ok {
+							for i, l := range as.Lhs {
+								if objOf(info, l) == types.Object(v) && i < len(as.Rhs) {
+									for k := range patterns(as.Rhs[i], 1) {
+										pats[k] = true
+									}
+								}
+							}
+						}
+						return true
+					})
+				}
+			}
+			return true
+		})
+		msg := ""
+		if !pats["\r"] || !pats["\n"] {
+			var have []string
+			for k := range pats {
+				have = append(have, strconv.Quote(k))
+			}
+			sort.Strings(have)
+			msg = "the text put into Diagnostic-Code is not cleared of every CR and every LF (patterns replaced: " + strings.Join(have, ", ") + "): a reply text with a lone CR or LF makes the header writer refuse the field, the report is not generated and the sender is never told"
+		}
+		c.Hold("R11", "RecipientInfo.WriteTo:diagnostic"+itoa(n), call.Pos(), msg == "", msg)
+		return true
+	})
+	if n == 0 {
+		c.Fail("R11", "RecipientInfo.WriteTo:diagnostic", r.FI.Decl.Pos(), "undecided: no Diagnostic-Code field is written")
+	}
+	_ = p
 }
